@@ -6,6 +6,7 @@ Only table- and wiring-like code is translated (see DESIGN.md §1):
   * ErrorCodes   : types/src/error.rs  (*_CODE constants, ErrorCode::code arms, From<i32> arms, enum variants)
   * ContentTypes : server/src/transport/http.rs  (is_json)
   * DefaultPorts : server/src/middleware/http/authority.rs (default_port)
+  * WireFields   : types/src/{request,response,error}.rs (member names of the wire structs: serde derives + the Response visitor)
   * Wiring       : which ServerConfig field reaches which limit at each entry point
 
 Each generated file records `translatorOk : Bool`.  When a source pattern is not recognised the
@@ -1306,7 +1307,131 @@ def gen_limit_wiring(info):
 
 
 # ------------------------------------------------------------------------------------------------
-GENERATORS = [gen_error_codes, gen_error_consts, gen_content_types, gen_limit_wiring, gen_conn_wiring, gen_default_ports]
+# ------------------------------------------------------------------------------------------------
+def _split_fields(text):
+    """split a struct body at commas outside () [] {} and <> (`->` does not close a bracket)"""
+    parts, depth, cur, prev = [], 0, "", ""
+    for ch in text:
+        if ch in "([{<":
+            depth += 1
+        elif ch in ")]}" or (ch == ">" and prev != "-"):
+            depth -= 1
+        if ch == "," and depth == 0:
+            parts.append(cur)
+            cur = ""
+        else:
+            cur += ch
+        prev = ch
+    if cur.strip():
+        parts.append(cur)
+    return [p.strip() for p in parts if p.strip()]
+
+
+def _serde_struct(src, name, problems):
+    """member names a derived serde impl of `pub struct <name>` reads/writes, in declaration order:
+    (fields, deny_unknown_fields, derives_deserialize, derives_serialize); a field is
+    (wire name, optional when reading, omitted when None on writing); `#[serde(skip)]` fields left out."""
+    m = re.search(r"((?:#!?\[[^\]]*\]\s*)*)pub struct " + name + r"\b[^{;(]*\{", src)
+    if not m:
+        problems.append(f"struct {name} not found")
+        return [], False, False, False
+    attrs = m.group(1)
+    close = _matching_brace(src, m.end() - 1)
+    body = src[m.end():close]
+    serde_attrs = " ".join(re.findall(r"serde\(((?:[^()]|\([^()]*\))*)\)", attrs))
+    if re.search(r"\brename_all\b|\btag\b|\buntagged\b|\bfrom\b|\binto\b|\btry_from\b|\btransparent\b|\bdefault\b", serde_attrs):
+        problems.append(f"struct {name}: container attribute not understood: {serde_attrs!r}")
+    deny = bool(re.search(r"\bdeny_unknown_fields\b", serde_attrs))
+    derives = " ".join(re.findall(r"derive\(([^)]*)\)", attrs))
+    fields = []
+    for item in _split_fields(body):
+        fattrs = " ".join(re.findall(r"serde\(((?:[^()]|\([^()]*\))*)\)", item))
+        decl = re.sub(r"#\[(?:[^\[\]]|\[[^\]]*\])*\]", "", item).strip()
+        mm = re.match(r"(?:pub(?:\([^)]*\))?\s+)?(?:r#)?(\w+)\s*:\s*(.+)$", decl, flags=re.S)
+        if not mm:
+            problems.append(f"struct {name}: field not understood: {item[:60]!r}")
+            continue
+        fname, ty = mm.group(1), mm.group(2).strip()
+        if re.search(r"(?<![\w_])skip(?![\w_])", fattrs):
+            continue
+        if re.search(r"\bflatten\b|\bwith\b|\bdeserialize_with\b|\bserialize_with\b|\balias\b|\bskip_deserializing\b|\bskip_serializing\b(?!_)", fattrs):
+            problems.append(f"struct {name}.{fname}: field attribute not understood: {fattrs!r}")
+        rn = re.search(r'\brename\s*=\s*"([^"]*)"', fattrs)
+        wire = rn.group(1) if rn else fname
+        optional = bool(re.match(r"(?:std::option::|core::option::)?Option\s*<", ty)) or bool(re.search(r"\bdefault\b", fattrs))
+        omit_none = bool(re.search(r'skip_serializing_if\s*=\s*"Option::is_none"', fattrs))
+        fields.append((wire, optional, omit_none))
+    return fields, deny, bool(re.search(r"\bDeserialize\b", derives)), bool(re.search(r"\bSerialize\b", derives))
+
+
+def gen_wire_fields(info):
+    """The member names of the JSON-RPC wire structs, as the serde derives (and the hand-written Response
+    visitor) of jsonrpsee-types read and write them -> Gen/WireFields.lean.  The hand-written model
+    (Model/Wire.lean `structFields [...] deny`, `respOfMembers`, the encoders) is tied to these tables by
+    Theorems/WireFieldsTie.lean."""
+    problems = []
+    req = strip_comments(read("types/src/request.rs"))
+    rsp = strip_comments(read("types/src/response.rs"))
+    err = strip_comments(read("types/src/error.rs"))
+    structs = []
+    for label, src, name in (("request", req, "Request"), ("notification", req, "Notification"), ("invalidRequest", req, "InvalidRequest"),
+                             ("errorObject", err, "ErrorObject"), ("subscriptionPayload", rsp, "SubscriptionPayload"),
+                             ("subscriptionPayloadError", rsp, "SubscriptionPayloadError")):
+        fields, deny, de, ser = _serde_struct(src, name, problems)
+        if not de:
+            problems.append(f"struct {name}: Deserialize is not derived (hand-written impl?)")
+        structs.append((label, name, fields, deny, de, ser))
+    # hand-written visitor of Response: the names its field visitor recognises, FIELDS, and what Serialize writes
+    arms = re.findall(r'"(\w+)"\s*=>\s*Ok\(\s*(?:Field|Self)::(\w+)\s*\)', rsp)
+    if not arms:
+        problems.append("Response: no `\"name\" => Ok(Field::X)` arms found in the field visitor")
+    mF = re.search(r"const FIELDS\s*:\s*&\[&str\]\s*=\s*&\[([^\]]*)\]", rsp)
+    fields_const = re.findall(r'"(\w+)"', mF.group(1)) if mF else []
+    if not mF:
+        problems.append("Response: const FIELDS not found")
+    ser_block = find_block(rsp, r"impl<[^>]*>\s*Serialize\s+for\s+Response<[^{]*\{") or ""
+    written = re.findall(r'serialize_field\(\s*"(\w+)"', ser_block)
+    if not written:
+        problems.append("Response: no serialize_field calls found in `impl Serialize for Response`")
+    ok = not problems
+
+    def cps(s):
+        return "[" + ", ".join(str(ord(c)) for c in s) + "]"
+
+    L = ["/- GENERATED by /verif/tools/translate.py from types/src/{request,response,error}.rs — do not edit. -/", "namespace Jrpc.Gen", "",
+         f"def wireFieldsTranslatorOk : Bool := {'true' if ok else 'false'}", ""]
+    if problems:
+        L += ["/- unrecognised:"] + ["   " + p_.replace("-/", "- /") for p_ in problems] + ["-/", ""]
+    L += ["/-- a struct whose serde impls are derived: member names (Unicode code points) in declaration order —",
+          "the order the derived `Serialize` writes them and the derived visitor reads a JSON array —, which may be",
+          "absent when reading (`Option<_>`), which are left out when `None` on writing, and `deny_unknown_fields` -/",
+          "structure WireStruct where", "  fields : List (List Nat)", "  optional : List Bool", "  omitNone : List Bool", "  deny : Bool",
+          "  deserialize : Bool", "  serialize : Bool", "  deriving DecidableEq, Repr", ""]
+    for label, name, fields, deny, de, ser in structs:
+        L.append(f"/-- `pub struct {name}`: " + ", ".join(f[0] for f in fields) + " -/")
+        L.append(f"def {label}Struct : WireStruct :=")
+        L.append("  { fields := [" + ", ".join(cps(f[0]) for f in fields) + "],")
+        L.append("    optional := [" + ", ".join("true" if f[1] else "false" for f in fields) + "],")
+        L.append("    omitNone := [" + ", ".join("true" if f[2] else "false" for f in fields) + "],")
+        L.append(f"    deny := {'true' if deny else 'false'}, deserialize := {'true' if de else 'false'}, serialize := {'true' if ser else 'false'} }}")
+        L.append("")
+    L.append("/-- hand-written `Deserialize for Response`: the names its field visitor recognises (anything else is ignored), in arm order: " + ", ".join(a[0] for a in arms) + " -/")
+    L.append("def responseFieldArms : List (List Nat) := [" + ", ".join(cps(a[0]) for a in arms) + "]")
+    L.append("/-- `const FIELDS` handed to `deserialize_struct` -/")
+    L.append("def responseFieldsConst : List (List Nat) := [" + ", ".join(cps(a) for a in fields_const) + "]")
+    L.append("/-- `serialize_field` names of `impl Serialize for Response` in source order (`error` / `result` are the two arms of one match): " + ", ".join(written) + " -/")
+    L.append("def responseWritten : List (List Nat) := [" + ", ".join(cps(a) for a in written) + "]")
+    L += ["", "end Jrpc.Gen"]
+    write_if_changed(os.path.join(GEN, "WireFields.lean"), "\n".join(L) + "\n")
+    info["WireFields"] = {"source": "types/src/request.rs, types/src/response.rs, types/src/error.rs", "ok": ok, "problems": problems,
+                          "structs": {label: [f[0] for f in fields] for label, _, fields, _, _, _ in structs},
+                          "response_arms": [a[0] for a in arms]}
+
+
+
+GENERATORS = [gen_error_codes, gen_error_consts, gen_content_types, gen_limit_wiring, gen_conn_wiring, gen_default_ports, gen_wire_fields]
+GEN_FILE = {"gen_error_codes": "ErrorCodes.lean", "gen_error_consts": "ErrorConsts.lean", "gen_content_types": "ContentTypes.lean",
+            "gen_limit_wiring": "LimitWiring.lean", "gen_conn_wiring": "ConnWiring.lean", "gen_default_ports": "DefaultPorts.lean", "gen_wire_fields": "WireFields.lean"}
 
 
 def main():
@@ -1317,6 +1442,12 @@ def main():
             g(info)
         except Exception as e:  # a crashed generator is a failed translation, not a crashed check
             info[g.__name__] = {"ok": False, "problems": [f"exception: {e!r}"]}
+            # the file it would have rewritten is stale now: it must not go on saying the translation is fine
+            stale = os.path.join(GEN, GEN_FILE.get(g.__name__, ""))
+            if os.path.isfile(stale):
+                with open(stale, encoding="utf-8") as f:
+                    t = f.read()
+                write_if_changed(stale, re.sub(r"(TranslatorOk : Bool := )true", r"\1false", t))
     out = os.environ.get("VERIF_TRANSLATE_INFO", "/verif/.build/translate_info.json")
     os.makedirs(os.path.dirname(out), exist_ok=True)
     with open(out, "w") as f:
